@@ -52,6 +52,9 @@ pub fn check_sw(ck: &mut Ck, c: &SwC, rng: &mut Rng, npts: usize) -> bool {
     if !ok_canon {
         return false;
     }
+    if !ck.ob(C_COEFF, "BaseField/is-a-field", is_field(t), || json!({"p": hexu(p)})) {
+        return false;
+    }
     let e = sw_curve(c);
     // 4a^3 + 27b^2 != 0
     let disc = t.add(&t.mul(&small(t, d, 4), &t.mul(&e.a, &t.mul(&e.a, &e.a))), &t.mul(&small(t, d, 27), &t.mul(&e.b, &e.b)));
@@ -119,6 +122,9 @@ pub fn check_te(ck: &mut Ck, c: &TeC, rng: &mut Rng, npts: usize) -> bool {
     let ok_canon = prime_base && canon(&p, &c.a, 1) && canon(&p, &c.d, 1) && canon(&p, &c.g.0, 1) && canon(&p, &c.g.1, 1) && canon(&p, &c.mont_a, 1) && canon(&p, &c.mont_b, 1);
     ck.ob(C_COEFF, "COEFF_A,COEFF_D,GENERATOR/canonical", ok_canon, || json!({"a": hexv(&c.a), "d": hexv(&c.d), "generator": hexpt(&c.g), "prime base field": prime_base}));
     if !ok_canon {
+        return false;
+    }
+    if !ck.ob(C_COEFF, "BaseField/is-a-field", is_field(&c.base), || json!({"p": hexu(&p)})) {
         return false;
     }
     let e = te_curve(c);
@@ -210,6 +216,10 @@ pub fn check_te_sw(ck: &mut Ck, te: &TeC, sw: &SwC) {
         ck.ob(C_TESW, "SW-form/same-base-field", false, || json!({}));
         return;
     }
+    if !is_field(&te.base) {
+        ck.ob(C_TESW, "BaseField/is-a-field", false, || json!({"p": hexu(&p)}));
+        return;
+    }
     let z = Zp::new(p.clone());
     let (a, b) = (&te.mont_a[0], &te.mont_b[0]);
     let inv = |x: &UInt| z.inv(x);
@@ -248,6 +258,10 @@ pub fn check_glv(ck: &mut Ck, sw: &SwC, g: &GlvC) {
     let d = t.depth();
     let dim = t.dim(d);
     let r = &sw.r;
+    if !is_field(t) {
+        ck.ob(G_BETA, "BaseField/is-a-field", false, || json!({"p": hexu(&t.p)}));
+        return;
+    }
     ck.ob(G_BETA, "ENDO_COEFFS/length", g.endo_coeffs.len() == 1 && canon(&t.p, &g.endo_coeffs[0], dim), || json!({"len": g.endo_coeffs.len()}));
     if g.endo_coeffs.len() != 1 || !canon(&t.p, &g.endo_coeffs[0], dim) {
         return;
